@@ -30,6 +30,13 @@ Rules (keys are rule:unit:function:construct):
         2p+2 digits and then rounded once to the node's type, which is exact), a cast / a literal is rounded exactly once, directly to
         the node's type, values passed through (?: , unary -) are not rounded again, and the return type of eval_double holds every
         floating type of the catalogue
+  R07.14 address constants in static initializers: the label + addend the folder produced reaches the emitted image at the position of the sub-object
+        it initialises: relocation created at the element offset; every relocation created for a copied image (struct initialised by a compound literal
+        of its own type) is a fresh record displaced by the position of the copy; cursor threaded in image order; emit_data prints label+addend at the
+        relocation's offset (the obligations of C05 R05.1 image-copy / R05.3 / R05.5 / R05.7, re-issued: they state this clause of C07 too)
+  R07.15 a floating value converted to an integer type by the folder (operand of ND_CAST; floating initializer of a static integer object) goes through a
+        host conversion whose target holds every value of the destination that the path condition admits (unsigned 64-bit: not through int64_t)
+  (R07.5 also: the operands run-time evaluation always evaluates - left operand of the comma operator included - are required constant by is_const_expr)
 
 The folder (parse.c eval2 / eval_double / is_const_expr) is summarised once per
 node kind by a path-splitting symbolic executor (sa/lib_c07.py) that keeps, for
@@ -251,7 +258,10 @@ def run(P, rep, tier):
                        'out-parameter are counted and matched with the operand that can denote an address and with its coefficient in the result (R07.10). '
                        'The floating folder is judged per arm and per floating node type for the format in which each value is exact: operands not rounded below their type, + - * / carried out '
                        'in the node\'s type (or wide enough for the second rounding to be exact), casts and literals rounded exactly once to the node\'s type, return type wide enough (R07.13). '
-                       'The static-initializer back end, which converts the folded value to the object\'s type, is covered by the obligations of C05 R05.2/R05.4 re-issued as R07.12. '
+                       'The static-initializer back end, which converts the folded value to the object\'s type, is covered by the obligations of C05 R05.2/R05.4 re-issued as R07.12; '
+                       'the way of an address constant (label + addend) from the folder into the image - relocation records created, copied with a compound literal\'s image and displaced by the '
+                       'position of the copy, threaded, emitted - by those of C05 R05.1/R05.3/R05.5/R05.7 re-issued as R07.14. Conversions of a floating value to an integer type inside the folder '
+                       'and at the static back end are judged for the range of the host type they go through (R07.15). '
                        'Equality of values for whole expressions is the consequence by '
                        'structural induction and is not decided here.')
     rep.assumptions += ['typing relation of each kind as produced by add_type (R01.2)',
@@ -274,7 +284,10 @@ def run(P, rep, tier):
     r0710(F, rep)
     r0711(F, rep)
     r0713(F, P, rep)
-    r0712(P, rep, tier)
+    r0715(F, rep)
+    back = _static_back_end(P, tier)
+    r0712(P, rep, tier, back)
+    r0714(P, rep, tier, back)
 
 
 # ------------------------------------------------------------------ R07.8 ---
@@ -1090,6 +1103,12 @@ def r074(F, rep):
 
 
 # ------------------------------------------------------------------ R07.5 ---
+# operands that an execution of the operator always evaluates (C11 6.5: both operands of a binary / the comma operator, the operand of a unary operator or cast,
+# the left operand of && ||, the condition of ?:)
+RUN_TIME_OPERANDS = dict([(k, ('lhs', 'rhs')) for k in BINOPS] + [(k, ('lhs',)) for k in UNOPS] +
+                         [('ND_NOT', ('lhs',)), ('ND_CAST', ('lhs',)), ('ND_LOGAND', ('lhs',)), ('ND_LOGOR', ('lhs',)), ('ND_COND', ('cond',)), ('ND_COMMA', ('lhs', 'rhs'))])
+
+
 def _evaluated_children(ps):
     """{(child, folder)} for the children handed to the folder on returning paths"""
     out = set()
@@ -1278,6 +1297,25 @@ def r075(F, rep):
                         msg = ('%s answers true for %s without requiring %s to be constant (by the predicate of the folder it goes to), but %s evaluates it: '
                                'an array bound with a non-constant %s is treated as constant and rejected instead of becoming a VLA' % (acc, kind, ','.join(miss), fold, ','.join(miss)))
                 rep.ob('R07.5', '%s:%s:%s/has-folder-arm' % (U, acc, kind), good_arm, arm_msg, where=w)
+                if acc == 'is_const_expr' and kind in RUN_TIME_OPERANDS:
+                    # the operands run-time evaluation of the kind evaluates on every execution must be constant expressions themselves (no side effect is
+                    # dropped by folding), also when the folder does not look at them (left operand of the comma operator)
+                    lost = set(); und2 = None
+                    for gp, implied, rec in alts:
+                        if not rec:
+                            und2 = 'the answer of is_const_expr(%s) is not a conjunction of constant-ness predicates' % kind; continue
+                        lost |= set(c for c in RUN_TIME_OPERANDS[kind] if ('is_const_expr', c) not in implied)
+                    k2 = '%s:%s:%s/operands-evaluated-at-run-time-required-constant' % (U, acc, kind)
+                    if lost:
+                        rep.ob('R07.5', k2 + ':' + ','.join(sorted(lost)), False,
+                               'is_const_expr answers true for %s without requiring %s to be a constant expression, although run-time evaluation of the operator evaluates it on every '
+                               'execution: the expression is folded to a value and the operand with its side effects is dropped (`int a[(f(), 3)];` becomes an array of 3 and f is never called; '
+                               'C11 6.6p3: a constant expression contains no comma operator, assignment or call that is evaluated - the array is a VLA whose size expression is evaluated)' % (
+                                   kind, ','.join(sorted(lost))), where=w)
+                    elif und2:
+                        rep.undecided('R07.5', k2, und2, where=w)
+                    else:
+                        rep.ob('R07.5', k2, True, '', where=w)
                 if good_arm and good and und:
                     rep.undecided('R07.5', '%s:%s:%s/operands-required-constant' % (U, acc, kind), und, where=w)
                 elif good_arm:
@@ -1547,6 +1585,8 @@ def r0710(F, rep):
                     if d is None:
                         und = 'a returning path of %s has not branched on the folded condition' % kind; continue
                     want = 'then' if d else 'els'
+                if not calls and not stores and p.guard_of(('call', 'is_flonum', (ty_of(child(want)),))) is True:
+                    continue          # the path established that the operand is floating: it cannot denote an address
                 if stores or len(calls) != 1 or who[0] != want or calls[0][1] not in ('eval2', 'eval_rval'):
                     bad['address-operand-without-relocation:' + want] = (
                         '%s of %s does not hand the relocation out-parameter to the folder on `%s` (it goes to: %s): an address constant in that operand '
@@ -1630,32 +1670,48 @@ def r0711(F, rep):
 
 
 # ----------------------------------------------------------------- R07.12 ---
-def r0712(P, rep, tier):
-    """the static-initializer back end is the consumer that turns the folder's 64-bit / double value into the bytes of an object: the conversion to the
-    object's type that an assignment performs at run time (C11 6.7.9p11) happens there.  C05 decides it (R05.2 scalars, eval_truth; R05.4 bit-field
-    merge); the same obligations are the consumer clause of C07 for static initializers and are re-issued here."""
-    from ..report import Report, reissue
+def _static_back_end(P, tier):
+    """the obligations of C05 about the static-initializer back end (the consumer of the folder's values and address constants), run once into a
+    Report of their own: (report, None) or (None, why not)"""
+    from ..report import Report
     from . import c05
-    rep.rule('R07.12', 'static initializers: the folded value reaches the object converted to the object\'s type as a run-time assignment converts it: every scalar class '
-                       'is stored with its own width and representation, a _Bool object and a _Bool bit-field receive `value != 0` (not the low byte / the low bits of the '
-                       'folded value), a bit-field is merged as old | ((new & mask) << offset) in 64 bits (same obligations as C05 R05.2 / R05.4 on write_gvar_data and eval_truth)',
-             floor=18)
     sub = Report('C05')
     try:
         try:
             # only the rule functions of C05 that look at the consumer (a few seconds); the whole of c05.run when their interface moved
             u = P.unit(U)
-            for r in ('R05.1', 'R05.2', 'R05.4', 'R05.7', 'R05.13'):
+            for r in ('R05.1', 'R05.2', 'R05.3', 'R05.4', 'R05.5', 'R05.7', 'R05.13'):
                 sub.rule(r, '', 1)
             be = c05.BackEnd(P, u, u.enums, 'write_gvar_data')
+            c05.r051_array(be, sub)
             c05.r051_struct(be, sub)
+            c05.r051_struct_expr(be, sub)
+            c05.r051_struct_expr(be, sub, 'TY_UNION', 'union')
+            c05.r051_union(be, sub)
             c05.r052_scalars(P, u, u.enums, Catalogue(P), sub)
             c05.r052_truth_helper(P, u, u.enums, sub)
+            c05.r053(P, u, u.enums, sub)
+            c05.r055(P, sub)
         except (AttributeError, TypeError):
             sub = Report('C05')
             c05.run(P, sub, tier)
     except AnalysisBroken as e:
-        rep.undecided('R07.12', '%s:write_gvar_data:consumer' % U, 'the static back end could not be evaluated: %s' % e)
+        return None, str(e)
+    return sub, None
+
+
+def r0712(P, rep, tier, back=None):
+    """the static-initializer back end is the consumer that turns the folder's 64-bit / double value into the bytes of an object: the conversion to the
+    object's type that an assignment performs at run time (C11 6.7.9p11) happens there.  C05 decides it (R05.2 scalars, eval_truth; R05.4 bit-field
+    merge); the same obligations are the consumer clause of C07 for static initializers and are re-issued here."""
+    from ..report import reissue
+    rep.rule('R07.12', 'static initializers: the folded value reaches the object converted to the object\'s type as a run-time assignment converts it: every scalar class '
+                       'is stored with its own width and representation, a _Bool object and a _Bool bit-field receive `value != 0` (not the low byte / the low bits of the '
+                       'folded value), a bit-field is merged as old | ((new & mask) << offset) in 64 bits (same obligations as C05 R05.2 / R05.4 on write_gvar_data and eval_truth)',
+             floor=18)
+    sub, why = back if back is not None else _static_back_end(P, tier)
+    if sub is None:
+        rep.undecided('R07.12', '%s:write_gvar_data:consumer' % U, 'the static back end could not be evaluated: %s' % why)
         return
 
     def keep(o):
@@ -1664,6 +1720,288 @@ def r0712(P, rep, tier):
     n = reissue(rep, 'R07.12', sub, 'the value the folder computed is not the value the object holds: ', keep=keep)
     if n == 0:
         rep.undecided('R07.12', '%s:write_gvar_data:consumer' % U, 'C05 produced no obligation about the static back end')
+
+
+# ----------------------------------------------------------------- R07.14 ---
+def r0714(P, rep, tier, back=None):
+    """an address constant leaves the folder as label + addend (eval2's out-parameter and return value); its value at run time is the address of the
+    object plus the addend, stored in the pointer sub-object it initialises.  Between the folder and the emitted `.quad label+addend` the pair travels as a
+    Relocation whose offset is the position of that sub-object in the image of the outermost object.  Every step that creates, copies or consumes a
+    Relocation must keep (offset of the sub-object, label, addend): creation at the element offset (write_gvar_data), a copied image (a struct initialised
+    by a compound literal of its own type: the relocations of the literal's image are relative to the literal and are displaced by the position of the copy),
+    the cursor threaded through the recursion in image order, the list handed to the object, and emit_data printing label and addend when the walk reaches
+    the relocation's offset.  C05 decides each of these (R05.1 image copy, R05.3, R05.5, R05.7); they state this clause of C07 and are re-issued."""
+    from ..report import reissue
+    rep.rule('R07.14', 'address constants in static initializers: the label + addend the folder produced reaches the emitted image at the position of the sub-object it '
+                       'initialises: a relocation is created at the element offset with the folder\'s label and value; every relocation created for a copied image '
+                       '(struct / union initialised by an object whose image is already computed) is a fresh record displaced by the position of the copy and carries '
+                       'label and addend of the source; the relocation cursor is threaded through every recursive call in image order and returned; the object '
+                       'receives image and list; emit_data prints label and addend exactly when the image walk reaches the relocation\'s offset '
+                       '(same obligations as C05 R05.1 image-copy / R05.3 / R05.5 / R05.7)', floor=7)
+    sub, why = back if back is not None else _static_back_end(P, tier)
+    if sub is None:
+        rep.undecided('R07.14', '%s:write_gvar_data:address-constants' % U, 'the static back end could not be evaluated: %s' % why)
+        return
+
+    def keep(o):
+        k = o['key']
+        if k.startswith('R05.7:') and ':write_gvar_data:' in k:
+            return True                  # cursor threading per aggregate arm, the relocation record of a scalar
+        if k.startswith('R05.1:') and ':write_gvar_data:' in k and '-valued-initializer/image-' in k:
+            return True                  # image copy: bytes, and the relocations displaced by the position of the copy
+        if k.startswith('R05.3:') and ':gvar_initializer:' in k and ('relocations' in k or 'offset-0' in k):
+            return True                  # the object gets the list behind the dummy head; the root image starts at offset 0
+        if k.startswith('R05.5:') and ':emit_data:' in k:
+            c = k.split(':emit_data:', 1)[1]
+            # the consumer's walk over image + relocations (.quad label+addend at rel->offset); not the header directives / the zero fill
+            return not c.startswith('.') and not c.startswith('uninitialised')
+        return False
+    n = reissue(rep, 'R07.14', sub, 'the address constant the folder computed (label + addend) is not what the object holds at that position: ', keep=keep)
+    if n == 0:
+        rep.undecided('R07.14', '%s:write_gvar_data:address-constants' % U, 'C05 produced no obligation about relocations of the static back end')
+
+
+# ----------------------------------------------------------------- R07.15 ---
+INIT_EXPR = ('fld', ('sym', 'init'), 'expr')
+
+
+def _holds_range(H, bits, signed):
+    """every value of the integer type (bits, signed) is a value of the host integer type H"""
+    if H[0] != 'i':
+        return False
+    if H[2] == signed:
+        return H[1] >= bits
+    return H[2] and H[1] > bits
+
+
+def _keeps_low_bits(rest, H, bits):
+    """the integral conversions `rest` applied to a value of host type H keep its low `bits` bits (for every witness value)"""
+    for x in WITNESS:
+        x = wrap(x, H)
+        v = chain_fn_(rest, x, H)
+        if v is None or wrap(v, ('i', bits, False)) != wrap(x, ('i', bits, False)):
+            return False
+    return True
+
+
+def chain_fn_(chain, x, T0):
+    v = wrap(x, T0)
+    for to, frm in chain:
+        if to[0] != 'i':
+            return None
+        v = wrap(v, to)
+    return v
+
+
+def _value_bounds(p, w):
+    """[lo, hi] (python ints, None = unbounded) that the guards of path p put on the integral part of the floating value w by comparing it with constants"""
+    import math
+    lo = hi = None
+    for a, t in p.guards:
+        if a[0] != 'bin' or a[1] not in ('<', '<=', '>', '>='):
+            continue
+        x, y, op = strip_widening(a[2]), strip_widening(a[3]), a[1]
+        if y == w and x[0] in ('flt', 'int'):
+            x, y, op = y, x, {'<': '>', '<=': '>=', '>': '<', '>=': '<='}[op]
+        if x != w or y[0] not in ('flt', 'int'):
+            continue
+        if not t:
+            op = {'<': '>=', '<=': '>', '>': '<=', '>=': '<'}[op]
+        c = y[1]
+        if op in ('>', '>='):
+            b = math.floor(c)
+            lo = b if lo is None else max(lo, b)
+        else:
+            b = int(c) - 1 if (op == '<' and c == math.floor(c) and c > 0) else (math.floor(c) if c >= 0 else math.ceil(c))
+            hi = b if hi is None else min(hi, b)
+    return lo, hi
+
+
+def _flo_shortcut(F):
+    """what the integer folder returns for a node of floating type: {floating type: [(lo, hi, chain (inner first) around eval_double(node))]}, one entry per
+    returning path (lo, hi: the bounds the path condition puts on the value), or a str (why not)"""
+    out = {}
+    w = ('call', 'eval_double', (NODE,))
+    for ft in F.FLOLIKE:
+        branches = set()
+        for kind in ('ND_NUM', 'ND_ADD', 'ND_CAST'):
+            for p in F.facts(node=ft).select(F.paths('eval2', kind)):
+                if p.outcome[0] != 'ret':
+                    continue
+                core, chain = _core(p.outcome[1])
+                if core != w or not chain or chain[0][1][0] != 'f' or chain[0][0][0] != 'i':
+                    return 'the value eval2 returns for a node of type %s (%s) is not a host conversion of eval_double(node) to an integer type' % (ft, show(p.outcome[1]))
+                branches.add(_value_bounds(p, w) + (tuple(chain),))
+        if not branches:
+            return 'eval2 has no returning path for a node of type %s' % ft
+        out[ft] = sorted(branches, key=repr)
+    return out
+
+
+def _flo_to_int(F, p, v, shortcut, ft, is_arg, not_floating):
+    """v: a value the folder / a consumer derives on path p from an operand that has (may have) the floating type ft.  -> [(lo, hi, H, rest)]: for the values whose
+    integral part is in [lo, hi] the floating value is first converted to the host integer type H and then passes through the integral conversions `rest`;
+    None: the operand is known not to be floating here; str: not recognised"""
+    core, chain = _core(v)
+    if core[0] != 'call' or core[1] not in EVALUATORS or not core[2] or not is_arg(core[2][0]):
+        return 'the value %s is not a conversion of the folded operand' % show(v)
+    if core[1] == 'eval_double':
+        if not chain or chain[0][1][0] != 'f' or chain[0][0][0] != 'i':
+            return 'the floating value is used as %s' % show(v)
+        lo, hi = _value_bounds(p, core)
+        return [(lo, hi, chain[0][0], chain[1:])]
+    if not_floating:
+        return None
+    if core[1] != 'eval2':
+        return '%s is applied to an operand of floating type' % core[1]
+    return [(lo, hi, sc[0][0], list(sc[1:]) + chain) for lo, hi, sc in shortcut[ft]]
+
+
+def r0715(F, rep):
+    """C11 6.3.1.4: a finite floating value converted to an integer type is truncated toward zero, and the result is that value whenever the
+    destination can represent it.  The generated code does that for every destination (it has a separate sequence for unsigned 64-bit).  The folder
+    converts on the host: the host conversion must go to a host integer type that holds every value of the destination the path can see (then the reduction
+    to the destination is the identity on the defined cases); a conversion to int64_t does not yield the values 2^63 .. 2^64-1 of an unsigned 64-bit destination."""
+    u = F.u
+    rep.rule('R07.15', 'a floating value converted to an integer type by the folder (operand of a cast, eval2 ND_CAST; initializer of a static object of integer type, '
+                       'write_gvar_data) goes through a host conversion whose target type holds every value of the destination type that the path condition admits, and keeps the '
+                       'destination\'s bits afterwards, for every integer class of the catalogue and every floating operand type (C11 6.3.1.4; run time: the cast table of the code generator)', floor=14)
+    try:
+        shortcut = _flo_shortcut(F)
+    except Unsupported as e:
+        shortcut = 'cannot summarise eval2 on a floating node: %s' % e
+    if isinstance(shortcut, str):
+        rep.undecided('R07.15', '%s:eval2:floating-node' % U, shortcut, where='%s:%d' % (U, u.fn('eval2').line))
+        return
+    classes = {}
+    for t in F.INTLIKE:
+        if t not in ('bool', 'ptr'):      # _Bool: R07.2 / R07.12; a floating value converted to a pointer is a constraint violation
+            classes.setdefault(cls_of(F.trec[t], F.tk), []).append(t)
+
+    def judge(key, where, values, dest):
+        """values: [(type name, floating type, path, value, is_arg, known not floating)]"""
+        bad = {}; und = None; n = 0
+        for t, ft, p, v, is_arg, nf in values:
+            rec = F.trec[t]
+            bits, signed = rec['size'] * 8, not rec['is_unsigned']
+            tlo, thi = (-(1 << (bits - 1)), (1 << (bits - 1)) - 1) if signed else (0, (1 << bits) - 1)
+            r = _flo_to_int(F, p, v, shortcut, ft, is_arg, nf)
+            if r is None:
+                continue
+            if isinstance(r, str):
+                und = r; continue
+            n += 1
+            for lo, hi, H, rest in r:
+                # the values of the destination type this branch is taken for
+                a = tlo if lo is None else max(tlo, lo)
+                b = thi if hi is None else min(thi, hi)
+                if a > b:
+                    continue
+                hlo, hhi = (-(1 << (H[1] - 1)), (1 << (H[1] - 1)) - 1) if H[2] else (0, (1 << H[1]) - 1)
+                if a < hlo or b > hhi:
+                    wit = b if b > hhi else a
+                    bad['converted-as-' + tshow(H)] = (
+                        '%s of type %s (%d bits, %s) from a %s value: the host converts the floating value to %s first (%s%s): a value the destination type can represent but %s cannot '
+                        '(e.g. %d) is outside the host conversion\'s range (undefined on the host; x86 yields 0x8000000000000000), while the generated code converts it correctly: '
+                        '`static unsigned long u = (unsigned long)1.2e19;` / `= 1.2e19;` holds 9223372036854775808, the same conversion at run time 12000000000000000000' % (
+                            dest, t, bits, 'signed' if signed else 'unsigned', ft, tshow(H), show(v),
+                            '' if _core(v)[0][1] == 'eval_double' else ', whose value for a floating node is (%s)eval_double(node)' % tshow(H), tshow(H), wit))
+                elif any(c[0][0] != 'i' for c in rest) or not _keeps_low_bits(rest, H, bits):
+                    bad['narrowed-after-conversion'] = ('%s of type %s from a %s value: after the conversion to %s the value passes through %s, which does not keep the %d bits of the destination' % (
+                        dest, t, ft, tshow(H), show(v), bits))
+        for c, m in sorted(bad.items()):
+            rep.ob('R07.15', '%s/%s' % (key, c), False, m, where=where)
+        if bad:
+            return
+        if und or not n:
+            rep.undecided('R07.15', key, und or 'no path converts a floating value for this class', where=where)
+        else:
+            rep.ob('R07.15', key, True, '', where=where)
+
+    # (a) eval2 ND_CAST with a floating operand
+    w = '%s:%d' % (U, line_of_kind(u, 'eval2', F.E['ND_CAST']))
+    try:
+        ps = F.int_paths('ND_CAST')
+    except Unsupported as e:
+        rep.undecided('R07.15', '%s:eval2:ND_CAST/floating-operand' % U, 'cannot summarise: %s' % e, where=w)
+        ps = None
+    if ps is not None:
+        for cls, tnames in sorted(classes.items()):
+            vals = []
+            for t in tnames:
+                for ft in F.FLOLIKE:
+                    for p in F.facts(node=t, lhs=ft).select(ps):
+                        if p.outcome[0] == 'ret':
+                            vals.append((t, ft, p, p.outcome[1], lambda a: a == child('lhs'), False))
+            judge('%s:eval2:ND_CAST/%s:floating-operand' % (U, cls), w, vals, 'a cast to a destination')
+
+    # (b) write_gvar_data: a static object of integer type whose initializer expression may be floating (no cast node is inserted by the parser)
+    if 'write_gvar_data' not in u.functions:
+        raise AnalysisBroken('anchor function write_gvar_data vanished from %s' % U)
+    wg = '%s:%d' % (U, u.fn('write_gvar_data').line)
+    conv = _parser_converts_initializer(u)
+    TY = ('sym', 'ty')
+    for cls, tnames in sorted(classes.items()):
+        key = '%s:write_gvar_data:scalar/%s:floating-initializer' % (U, cls)
+        if conv:
+            rep.undecided('R07.15', key, 'the parser stores a new_cast() node into Initializer.expr (%s): whether the expression handed to write_gvar_data still can be floating is not decided' % conv, where=wg)
+            continue
+        vals = []; und = None
+        for t in tnames:
+            rec = F.trec[t]
+
+            def hook(base, f, rec=rec):
+                if base == TY and f in ('kind', 'size', 'is_unsigned'):
+                    return ('int', int(rec[f]))
+                return None
+            try:
+                paths = SymExec(F.P, u, opaque=FOLD, field_hook=hook).run('write_gvar_data', [('sym', 'cur'), ('sym', 'init'), TY, ('sym', 'buf'), ('sym', 'offset')])
+            except Unsupported as e:
+                und = 'cannot summarise write_gvar_data for an object of type %s: %s' % (t, e); continue
+            for ft in F.FLOLIKE:
+                # the object has type t, the initializer expression has type ft: the type predicates on either are decided
+                tf = TypeFacts({INIT_EXPR: F.trec[ft]}, F.preds)
+                for p in _select_with_ty(tf, paths, TY, rec):
+                    if p.outcome[0] != 'ret':
+                        continue
+                    for e in p.events:
+                        if e[0] == 'store' and any(x == ('sym', 'buf') for x in walk(e[1])):
+                            vals.append((t, ft, p, e[2], lambda a: a == INIT_EXPR, False))
+        if und and not vals:
+            rep.undecided('R07.15', key, und, where=wg)
+        else:
+            judge(key, wg, vals, 'a static object')
+
+
+def _select_with_ty(tf, paths, TY, rec):
+    """paths whose guards agree with the type facts tf, where the predicates of type.c applied to the parameter TY itself (is_integer(ty)) are
+    evaluated on the record rec"""
+    out = []
+    for p in paths:
+        ok = True
+        for a, t in p.guards:
+            x = None
+            if a[0] == 'call' and a[1] in tf.preds and len(a[2]) == 1 and a[2][0] == TY:
+                x = int(tf.preds[a[1]][rec['kind']])
+            else:
+                x = tf.ev(a)
+            if x is not None and bool(x) != t:
+                ok = False; break
+        if ok:
+            out.append(p)
+    return out
+
+
+def _parser_converts_initializer(u):
+    """name of a function that stores a new_cast(...) node into the `expr` field of an Initializer (then the expression write_gvar_data folds carries
+    the conversion to the object's type as an ND_CAST node of its own, judged by part (a)); '' when there is none"""
+    for fname, fd in sorted(u.functions.items()):
+        for n in fd.walk():
+            if n.kind == 'BinaryOperator' and n.opcode == '=':
+                L = n.inner[0].strip()
+                if L.kind == 'MemberExpr' and L.name == 'expr' and 'Initializer' in (L.inner[0].type or '') and n.inner[1].calls('new_cast'):
+                    return fname
+    return ''
 
 
 # ----------------------------------------------------------------- R07.13 ---
